@@ -47,12 +47,64 @@ def one(job):
     return out
 
 
+def run_cli(argv):
+    """Run the real command line (argparse included) in this process; returns (status, log text)."""
+    import logging
+    from moPepGen.cli import __main__ as climain
+    logging.disable(logging.NOTSET)
+    buf = io.StringIO()
+    old = sys.argv
+    sys.argv = ['moPepGen'] + [str(a) for a in argv]
+    status = 'ok'
+    try:
+        with contextlib.redirect_stderr(buf), contextlib.redirect_stdout(buf):
+            try:
+                climain.main()
+            except SystemExit as ex:
+                status = 'ok' if ex.code in (0, None) else f'exit:{ex.code}'
+            except BaseException as ex:
+                import traceback
+                status = 'error:' + type(ex).__name__ + ': ' + str(ex)[:200]
+    finally:
+        sys.argv = old
+        logging.disable(logging.CRITICAL)
+        lg = logging.getLogger('moPepGen')
+        for h in list(lg.handlers):
+            lg.removeHandler(h)
+    return status, buf.getvalue()[-6000:]
+
+
+def cli_job(job):
+    """{"argv": [...], "circ_gvf": path | None, "gene_fasta": ...}"""
+    status, log = run_cli(job['argv'])
+    out = dict(status=status, log=log)
+    if job.get('read_gvf') and os.path.exists(job['read_gvf']):
+        out['gvf'] = open(job['read_gvf']).read()
+    if job.get('circ_seq') and os.path.exists(job['read_gvf']):
+        from moPepGen import gtf, dna
+        from moPepGen.circ import io as cio
+        genome = dna.DNASeqDict(); genome.dump_fasta(job['circ_seq']['genome_fasta'])
+        anno = gtf.GenomicAnnotationOnDisk(); anno.generate_index(job['circ_seq']['annotation_gtf'])
+        seqs = []
+        with open(job['read_gvf']) as h:
+            for m in cio.parse(h):
+                g = anno.genes[m.gene_id]
+                gs = g.get_gene_sequence(genome[g.chrom])
+                seqs.append(dict(id=m.id, tx=m.transcript_id, seq=list(str(m.get_circ_rna_sequence(gs).seq)),
+                                 frags=[[int(f.location.start), int(f.location.end)] for f in m.fragments]))
+        out['circ'] = seqs
+    return out
+
+
 def main():
     top = json.load(sys.stdin)
     mpg.ready()
     res = []
     for job in top['jobs']:
         try:
+            if 'argv' in job:
+                res.append(dict(ok=True, out=cli_job(job)))
+                continue
             res.append(dict(ok=True, out=one(job)))
         except BaseException as ex:
             import traceback
